@@ -69,6 +69,20 @@ def run_case(case):
                 pass
             q.version = case["version"]; q.error_correction = case["level"]; q.mask_pattern = case["mask"]
             rec["segs"] = [(s.mode, bytes(s.data)) for s in q.data_list]
+        elif pre and pre.get("style") == "recompile":
+            # natural reuse: the object is constructed with the case's own settings, compiles OTHER data first, and then gets
+            # the case's data (after clear(), or on top) - no setting is ever re-assigned, so whatever an earlier compile left
+            # behind in the object (a remembered mask, a cache) is still there
+            q = qrcode.QRCode(version=case["version"], error_correction=case["level"], mask_pattern=case["mask"])
+            q.add_data(pre["data"], optimize=0)
+            try:
+                q.make(fit=case["fit"])
+                if pre.get("render"):
+                    q.get_matrix()
+            except Exception:  # noqa
+                pass
+            if pre.get("clear", True):
+                q.clear()
         elif pre:
             # "every symbol" includes symbols compiled by an object that compiled something else before: compile under other
             # settings and data first, then re-configure the same object by clear() + attribute assignment
@@ -234,9 +248,18 @@ def std_cases(tier, seed, caps=None, cross_all=False):
             continue        # (with version None the fitted version of the first compile is a legitimate starting point)
         c["prehistory"] = dict(style="resettings", version=rnd.choice([1, 2, 5, 7, 10]), level=rnd.randrange(4), mask=rnd.choice([None, 0, 5]), data=b"")
         c["tag"] = "random-resettings"
+    for c in rc[3::7]:
+        if not c.get("prehistory") and c["version"] is not None and not c["fit"]:
+            # (fixed version, fitting off: the earlier compile cannot move the starting version, so the request is unchanged)
+            c["prehistory"] = dict(style="recompile", data=gens.payload(rnd, rnd.choice(["lower", "digits", "bytes"]), rnd.randrange(1, 12)),
+                                   clear=True, render=rnd.random() < 0.5)     # (clear: the payload is the case's calls only)
+            c["tag"] = "random-recompiled-object"
     cases += rc
     cc = gens.class_crossing_cases(rnd, caps)
     cases += cc if (tier == "thorough" or cross_all) else rnd.sample(cc, 120)
+    # streams that need two re-fits (across 9|10 and then 26|27), around the capacity of version 27
+    dc = gens.double_crossing_cases(rnd, caps)
+    cases += dc if tier == "thorough" else rnd.sample(dc, min(len(dc), 28))
     # short payloads with one odd character at either end; multi-segment streams at capacity -2..+3 bits
     aw = gens.awkward_short_cases(rnd)
     awc = [c for c in aw if c["tag"] == "awkward-core"]
